@@ -992,11 +992,16 @@ func (g *Gen) execUnOp(x *ssa.UnOp, st *State) {
 	case token.MUL:
 		a := g.addrOf(x.X, st)
 		g.nilCheck(a, st, "load")
+		entryRead := g.isEntryRead(a, st)
 		v := g.loadAddr(a, st)
 		v.G = x.Type()
 		g.setVal(x, v)
 		r := g.vals[x]
 		g.assume(st.reach, g.wfFact(r, st))
+		if entryRead && a.text != "" && len(g.inputReads) < 200 && r.S.K != KUnit {
+			g.inputReads = append(g.inputReads, inputRead{Path: a.text, Term: r.T, Type: x.Type()})
+			g.modelVars = append(g.modelVars, ModelVar{Name: "@" + a.text, Term: r.T, Sort: r.S.SMT()})
+		}
 	case token.NOT:
 		v := g.val(x.X, st)
 		g.setVal(x, Val{T: sNot(v.T), S: sBool, G: x.Type()})
@@ -1372,12 +1377,17 @@ func (g *Gen) execNext(x *ssa.Next, st *State) {
 func (g *Gen) execReturn(x *ssa.Return, st *State) {
 	g.retCount++
 	g.cover = append(g.cover, st.reach)
-	if g.spec == nil {
-		return
-	}
 	var results []Val
 	for _, r := range x.Results {
 		results = append(results, g.val(r, st))
+	}
+	ri := len(g.rets)
+	g.rets = append(g.rets, retRecord{Reach: st.reach, Vals: results})
+	g.modelVars = append(g.modelVars, ModelVar{Name: fmt.Sprintf("@reach%d", ri), Term: st.reach, Sort: "Bool"})
+	for vi, rv := range results {
+		if rv.S != nil && rv.S.K != KUnit {
+			g.modelVars = append(g.modelVars, ModelVar{Name: fmt.Sprintf("@ret%d_%d", ri, vi), Term: rv.T, Sort: rv.S.SMT()})
+		}
 	}
 	env := g.specEnv(st, g.entry)
 	env.results = results
@@ -1527,4 +1537,18 @@ func rangeIndexLoop(h *ssa.BasicBlock) (*ssa.Alloc, ssa.Value) {
 		}
 	}
 	return nil, nil
+}
+
+// isEntryRead: does a load through address a read a heap map that still has its entry version
+// (i.e. the value is an input of the function)?
+func (g *Gen) isEntryRead(a *Addr, st *State) bool {
+	if a.rk != rPtr || len(a.path) == 0 || a.path[0].k != stField {
+		return false
+	}
+	if _, ok := a.typ.Underlying().(*types.Struct); !ok || isTimeType(a.typ) || isOpaqueStruct(a.typ) {
+		return false
+	}
+	name, _, _ := g.fieldMapName(a.typ, a.path[0].field)
+	cur, ok := st.heap[name]
+	return !ok && st.gen == 0 || cur == "H0_"+name
 }
